@@ -230,7 +230,7 @@ theorem map_account_modify (l : List (OutPosting String String)) (u : Nat) (amt 
   | cons x xs ih =>
     cases u with
     | zero => simp
-    | succ n => simp [List.modify_cons, ih]
+    | succ n => simp [ih]
 
 theorem fillConverted_account (a1 a2 : SingleAmount String) (p : OutPosting String String) :
     (fillConverted a1 a2 p).account = p.account := by
